@@ -12,5 +12,6 @@ func TestReplay(t *testing.T) {
 		"HarnessBatch3":    HarnessBatch3,
 		"HarnessMalformed": HarnessMalformed,
 		"HarnessSingle":    HarnessSingle,
+		"HarnessWSFrames":  HarnessWSFrames,
 	})
 }
